@@ -14,6 +14,8 @@ package dnsserver_test
 import (
 	"bufio"
 	"bytes"
+	"context"
+	"crypto/tls"
 	"encoding/binary"
 	"encoding/hex"
 	"encoding/json"
@@ -35,6 +37,7 @@ import (
 	"github.com/ameshkov/dnscrypt/v2"
 	"github.com/ameshkov/dnsstamps"
 	"github.com/miekg/dns"
+	"github.com/quic-go/quic-go"
 )
 
 var c01AllTransports = []string{"udp", "tcp", "dot", "doh-post", "doh-get", "doh-json", "doq", "dnscrypt-udp", "dnscrypt-tcp"}
@@ -510,6 +513,18 @@ func TestVerifC01Sock(t *testing.T) {
 		}
 		emit(eq)
 	}
+	// ---- part C: long-lived connections: many well-formed queries over ONE connection, the way stub
+	// resolvers and browsers use the stream transports (a DoQ client sends its FIN in a later frame than
+	// the data; a TCP client one query after the other).  Every one of them is an accepted query.
+	nReuse := vhEnvInt("VERIF_REUSE", 130)
+	for _, tr := range []string{"tcp", "dot", "doh", "doq"} {
+		got := c01Reuse(l, tr, nReuse)
+		ev := &dnsserver.C01Event{Ev: "Reuse", Src: "sock", T: tr, Gen: "reuse", Kind: "resp", N: got, H: "writes", Probe: "na",
+			Key: fmt.Sprintf("%d queries over one %s connection", nReuse, tr), More: []string{}, Items: []dnsserver.C01Item{}}
+		ev.Cnt = nReuse
+		out.Emit(ev)
+	}
+
 }
 
 func newC01Get(u string) (*http.Request, error) {
@@ -624,4 +639,91 @@ func TestVerifC01Child(t *testing.T) {
 		pe.Probe = "ok"
 	}
 	say(pe)
+}
+
+// c01Reuse sends n well-formed queries one after the other over ONE connection of the transport
+// and returns how many got their own answer (ID and question).
+func c01Reuse(l *vlab, tr string, n int) (answered int) {
+	mk := func(i int) (*dns.Msg, []byte) {
+		m := new(dns.Msg).SetQuestion(fmt.Sprintf("reuse%d.c01.example.", i), dns.TypeA)
+		m.Id = uint16(20000 + i)
+		b, _ := m.Pack()
+		return m, b
+	}
+	own := func(m *dns.Msg, raw []byte) bool {
+		r := new(dns.Msg)
+		return r.Unpack(raw) == nil && r.Id == m.Id && len(r.Question) == 1 && r.Question[0] == m.Question[0]
+	}
+	switch tr {
+	case "tcp", "dot":
+		var c net.Conn
+		var err error
+		if tr == "tcp" {
+			c, err = net.DialTimeout("tcp", l.tcp.String(), 2*time.Second)
+		} else {
+			c, err = tls.DialWithDialer(&net.Dialer{Timeout: 2 * time.Second}, "tcp", l.dot.String(), l.tlsConf.Clone())
+		}
+		if err != nil {
+			return 0
+		}
+		defer c.Close()
+		for i := 0; i < n; i++ {
+			m, b := mk(i)
+			if _, err = c.Write(append(binary.BigEndian.AppendUint16(nil, uint16(len(b))), b...)); err != nil {
+				return answered
+			}
+			_ = c.SetReadDeadline(time.Now().Add(3 * time.Second))
+			var ln uint16
+			if binary.Read(c, binary.BigEndian, &ln) != nil {
+				return answered
+			}
+			raw := make([]byte, ln)
+			if _, err = io.ReadFull(c, raw); err != nil {
+				return answered
+			}
+			if own(m, raw) {
+				answered++
+			}
+		}
+	case "doh":
+		for i := 0; i < n; i++ {
+			m, b := mk(i)
+			r := l.sendDoH(true, b)
+			if len(r.Replies) == 1 && own(m, r.Replies[0]) {
+				answered++
+			}
+		}
+	case "doq":
+		cc := l.tlsConf.Clone()
+		cc.NextProtos = dnsserver.NextProtoDoQ
+		ctx, cancel := context.WithTimeout(context.Background(), 60*time.Second)
+		defer cancel()
+		conn, err := quic.DialAddr(ctx, l.doq.String(), cc, &quic.Config{})
+		if err != nil {
+			return 0
+		}
+		defer func() { _ = conn.CloseWithError(0, "") }()
+		for i := 0; i < n; i++ {
+			m, b := mk(i)
+			m.Id = 0 // RFC 9250, 4.2.1
+			b, _ = m.Pack()
+			sctx, scancel := context.WithTimeout(ctx, 3*time.Second)
+			stream, serr := conn.OpenStreamSync(sctx)
+			scancel()
+			if serr != nil {
+				return answered // no stream credit left: the rest goes unanswered
+			}
+			if _, err = stream.Write(append(binary.BigEndian.AppendUint16(nil, uint16(len(b))), b...)); err != nil {
+				return answered
+			}
+			time.Sleep(time.Millisecond) // the FIN travels in a later frame than the data
+			_ = stream.Close()
+			_ = stream.SetReadDeadline(time.Now().Add(3 * time.Second))
+			all, _ := io.ReadAll(stream)
+			if len(all) >= 2 && len(all) >= 2+int(binary.BigEndian.Uint16(all)) && own(m, all[2:2+int(binary.BigEndian.Uint16(all))]) {
+				answered++
+			}
+		}
+	}
+	return answered
 }
